@@ -41,6 +41,24 @@ fn generate(s: &mut Session) {
         let st = random_sets(s);
         submit_solve(s, &p, &st, "c02");
     }
+    // re-solve histories on one solver object: feasible -> infeasible -> feasible ...;
+    // certificate, NaN objectives and all reported figures after EVERY solve
+    for k in 0..s.budget(300, 6000) {
+        let h = plant_history(s, k % 4 == 0);
+        let st = random_sets(s);
+        submit_history(s, &h, &st, "c02,c03");
+    }
+    // infeasible problems with the objective scaled over many decades
+    for k in 0..s.budget(150, 4000) {
+        let kind = if k % 2 == 0 { Plant::PrimalInfeasible } else { Plant::DualInfeasible };
+        let mut p = plant(s, kind, k % 3 == 0, false, false);
+        let g = 10f64.powf(s.rng.uniform(-8.0, 8.0));
+        p.P.nzval.iter_mut().for_each(|v| *v *= g);
+        p.q.iter_mut().for_each(|v| *v *= g);
+        let st = random_sets(s);
+        s.count("family:infeasible-cost-scaled");
+        submit_solve(s, &p, &st, "c02");
+    }
     // the modelled functions on constructed inputs (correspondence + their own oracles)
     gen_components(s, 2.0);
 }
